@@ -3,6 +3,8 @@
 package checks
 
 import (
+	"fmt"
+
 	"github.com/tokenized/spynode/internal/verif/core"
 	"github.com/tokenized/spynode/pkg/vrt"
 )
@@ -26,6 +28,7 @@ type schedPlan struct {
 	Total   int64 // points seen (for enumerating "every point")
 	applied []string
 	skipped int
+	suspended bool // while set, points are neither counted nor deviated (common boot phase)
 
 	// select statements with several ready cases: Go picks one at random, so every alternative is
 	// a legal execution. SelAlt[k] = case to take at the k-th such select (default 0).
@@ -36,7 +39,7 @@ type schedPlan struct {
 
 // Preempt implements vrt.Policy: park the running thread when a planned point is reached.
 func (p *schedPlan) Preempt(t *vrt.Thread, op *vrt.Op) bool {
-	if t.Env {
+	if t.Env || p.suspended {
 		return false
 	}
 	p.counter++
@@ -50,6 +53,9 @@ func (p *schedPlan) Preempt(t *vrt.Thread, op *vrt.Op) bool {
 }
 
 func (p *schedPlan) ChooseSelect(t *vrt.Thread, site string, n int) int {
+	if p.suspended {
+		return 0
+	}
 	k := p.selCount
 	p.selCount++
 	p.SelSeen = append(p.SelSeen, n)
@@ -102,7 +108,18 @@ func (w *World) execPlanStep(parked *vrt.Thread) {
 			w.plan.applied = append(w.plan.applied, "reset")
 		}
 	case "stall": // the running thread is slow: it does not continue for Alt milliseconds
+		if traceOn {
+			op := "?"
+			if parked.Pending != nil {
+				op = parked.Pending.Kind + "@" + parked.Pending.Site
+			}
+			w.tracef("STALL thread %s at %s for %d ms", parked.Label, op, st.Alt)
+		}
 		parked.StallUntil = w.S.Now + int64(st.Alt)*1e6
+		w.slack += int64(st.Alt)*1e6 + 100e6
+		if parked.Pending != nil {
+			w.devSite = fmt.Sprintf("stall of %s at %s@%s", threadRole(parked.Label), parked.Pending.Kind, parked.Pending.Site)
+		}
 		w.preferred = nil
 		w.plan.applied = append(w.plan.applied, "stall")
 	case "switch":
@@ -113,6 +130,10 @@ func (w *World) execPlanStep(parked *vrt.Thread) {
 			}
 		}
 		if st.Alt < len(others) {
+			if parked.Pending != nil {
+				w.devSite = fmt.Sprintf("pre-emption of %s at %s@%s", threadRole(parked.Label), parked.Pending.Kind, parked.Pending.Site)
+			}
+			w.slack += 100e6
 			w.preferred = nil
 			w.S.Resume(others[st.Alt])
 			if w.plan.hit != nil {
@@ -124,4 +145,9 @@ func (w *World) execPlanStep(parked *vrt.Thread) {
 			w.plan.skipped++
 		}
 	}
+}
+
+// threadRole maps a thread label (source position of its go statement) to a stable role name.
+func threadRole(label string) string {
+	return label
 }
